@@ -6,6 +6,7 @@ import Driver.Codec
 import ProphyModel.Spec
 import ProphyModel.Py
 import ProphyModel.PLayout
+import ProphyModel.Topo
 open Lean Prophy Prophy.Driver
 
 structure DState where
@@ -56,6 +57,32 @@ def handle (st : DState) (j : Json) : Except String (DState × Json) := do
     let ty ← getTy st j
     pure (st, Json.mkObj [("size", Spec.sizeTy ty), ("align", Spec.alignTy ty),
       ("dyn", Spec.dynTy ty), ("unl", Spec.unlTy ty)])
+  | "prophyc_topo" =>
+    let ds ← (← getArr j "decls").toList.mapM (fun d => do
+      let k ← getStr d "k"
+      let n ← getStr d "name"
+      match k with
+      | "const" => pure (Topo.Decl.const n (← getStr d "value"))
+      | "typedef" => pure (Topo.Decl.typedef n (← getStr d "type"))
+      | "enum" =>
+        let ms ← (← getArr d "members").toList.mapM (fun m => do
+          let a ← m.getArr?
+          pure ((← a[0]!.getStr?), (← a[1]!.getStr?)))
+        pure (Topo.Decl.enum n ms)
+      | "struct" =>
+        let ms ← (← getArr d "members").toList.mapM (fun m => do
+          let a ← m.getArr?
+          pure ((← a[0]!.getStr?), (match a[1]! with | .str s => some s | _ => none)))
+        pure (Topo.Decl.struct n ms)
+      | "union" =>
+        let ms ← (← getArr d "members").toList.mapM (fun m => do
+          let a ← m.getArr?
+          pure ((← a[0]!.getStr?), (← a[1]!.getStr?)))
+        pure (Topo.Decl.union n ms)
+      | s => throw s!"bad decl kind {s}")
+    match Topo.sortDecls ds with
+    | some order => pure (st, Json.mkObj [("order", Json.arr (order.map Json.str).toArray)])
+    | none => pure (st, Json.mkObj [("cycle", true)])
   | "prophyc_layout" =>
     let ty ← getTy st j
     let n := PL.nodeTy ty
